@@ -23,4 +23,5 @@ run MCCount  MCNegD1       NoErr         # FixD1 = FALSE: shrink_to keeps an emp
 run MCCount  MCNegD4       ReserveContract # FixD4 = FALSE: wrapping additions in reserve
 run MCCount  MCNegD6       NoErr         # FixD6 = FALSE: clone_from into an empty table with tombstones
 run MCCount  MCNegD8       NoErr         # FixD8 = FALSE, debug: (hint + 1) / 2 overflows in extend
+run MCCloneFrom MCNegD9    Findable      # FixD9 = FALSE: clone_from interrupted while carrying the leftovers
 exit $rc
